@@ -33,6 +33,13 @@ TReset ==
     /\ prop' = <<>> /\ vals' = <<>> /\ vi' = 1 /\ newst' = <<>> /\ newpv' = <<>> /\ accn' = 0
     /\ pick' = <<1, 1>> /\ wanted' = 0
 
+\* the user replaces the chain states between two runs: the cached probability values are those of the old positions
+TSetState ==
+    /\ pc = "idle" /\ IsEvent("SetState")
+    /\ st' = Ev.st /\ pv' = <<>> /\ pvReady' = FALSE
+    /\ \A m \in 1..Len(Ev.st) : Ev.st[m] \in {r.x : r \in env.pdf}
+    /\ UNCHANGED <<env, hist, phist, acc, pc, ci, burn, coll, prop, vals, vi, newst, newpv, accn, pick, wanted>>
+
 \* entering SampleDREAM; when the pdf cache is cold the next event is the initial pdf call
 TStart ==
     /\ IsEvent("Start") /\ StartRun(Ev.b, Ev.c)
@@ -78,7 +85,7 @@ TEnd ==
     /\ Ev.st = st /\ Ev.pv = pv /\ Ev.hist = hist /\ Ev.phist = phist /\ Ev.acc = acc
     /\ UNCHANGED vars
 
-TNext == TReset \/ TStart \/ TInitialPdf \/ TProp \/ TEvalPdf \/ TEvalNone \/ TDecideDraw \/ TDecideSilent \/ TCommit \/ TEnd
+TNext == TReset \/ TSetState \/ TStart \/ TInitialPdf \/ TProp \/ TEvalPdf \/ TEvalNone \/ TDecideDraw \/ TDecideSilent \/ TCommit \/ TEnd
 
 TSpec == TInit /\ [][TNext]_tvars
 
